@@ -50,6 +50,14 @@ def extra_inputs(pname, info, q, rng):
         ex['h'] = rng.standard_normal(q.nphi)
         ex['hs'] = ex['h']
         ex['hi'] = float(ex['h'][0])
+    if fn == 'init_axis' and info['variant'] != 'term':
+        for a in ('R0', 'Z0', 'R0p', 'Z0p', 'R0pp', 'Z0pp', 'R0ppp', 'Z0ppp'):
+            ex[a + '_sum'] = getattr(q, a)
+        ex['phi'] = q.phi
+        cs = np.zeros(q.nphi)
+        for j in range(1, q.nphi):
+            cs[j] = cs[j - 1] + (q.d_l_d_phi[j - 1] + q.d_l_d_phi[j])
+        ex['varphi_cumsum'] = cs
     if fn == 'solve_sigma_equation':
         x = np.array(q.sigma, dtype=float, copy=True)
         x[0] = q.iota
@@ -107,6 +115,33 @@ def reference_outputs(pname, info, q, ex):
     return ref
 
 
+def aux_term_program(pname, info, q, progs, res):
+    """init_axis_term: the sum over harmonics of each *_term binding must reproduce the corresponding axis array,
+    and the R0_func / Z0_func terms must reproduce the interpolants at the grid nodes"""
+    acc = {}
+    for k in range(q.nfourier):
+        env = {'jn': float(k), 'nfp': float(q.nfp), 's.nfp': float(q.nfp), 'phi': q.phi, 's.phi': q.phi,
+               'rc_jn': float(q.rc[k]), 'rs_jn': float(q.rs[k]), 'zc_jn': float(q.zc[k]), 'zs_jn': float(q.zs[k])}
+        missing = [x for x in info['inputs'] if x not in env]
+        if missing:
+            res['mismatches'].append('%s: no value for inputs %s' % (pname, missing))
+            return
+        evalback.run_prog(q, progs[pname], env)
+        for n, v in env.items():
+            if n.endswith('_term'):
+                acc[n] = acc.get(n, 0.0) + v
+    res['programs'] += 1
+    for n, v in acc.items():
+        base = n[:-5]
+        want = getattr(q, base)(q.phi) if base.endswith('_func') else getattr(q, base)
+        ok, err = evalback.compare(n, v, want)
+        res['bindings'] += 1
+        if not ok:
+            res['mismatches'].append('%s: sum over harmonics of %s differs from %s (rel err %s)' % (pname, n, base, err))
+        elif isinstance(err, float):
+            res['max_rel_err'] = max(res['max_rel_err'], err)
+
+
 def validate(q, rng, only=None):
     """returns dict(programs, bindings, max_rel_err, mismatches[list of str])"""
     man, progs = load_model()
@@ -119,6 +154,9 @@ def validate(q, rng, only=None):
         if only and pname not in only:
             continue
         if not variant_ok(pname, info, q):
+            continue
+        if info.get('auxiliary'):
+            aux_term_program(pname, info, q, progs, res)
             continue
         if pname not in progs:
             res['mismatches'].append('%s: program missing from generated Coq text' % pname)
